@@ -270,19 +270,19 @@ func acctOracle(res *result, tc *tcase, recs []acctRec, ended func(r acctRec) bo
 		c := by[sid]
 		if !ended(c.first) {
 			if c.stops > 0 {
-				res.fail("C16/"+tc.Kind+"/"+sigPath+"/acct-stop-for-live-session", "accounting session %s of a session that was not terminated got %d Stop(s): %v", sid, c.stops, recs)
+				res.fail("C16/"+tc.sigKind()+"/"+sigPath+"/acct-stop-for-live-session", "accounting session %s of a session that was not terminated got %d Stop(s): %v", sid, c.stops, recs)
 			}
 			continue
 		}
 		switch {
 		case c.starts > 1:
-			res.fail("C16/"+tc.Kind+"/"+sigPath+"/acct-start-duplicate", "accounting session %s has %d Starts: %v", sid, c.starts, recs)
+			res.fail("C16/"+tc.sigKind()+"/"+sigPath+"/acct-start-duplicate", "accounting session %s has %d Starts: %v", sid, c.starts, recs)
 		case c.starts == 1 && c.stops == 0:
-			res.fail("C16/"+tc.Kind+"/"+sigPath+"/acct-stop-missing", "accounting session %s was started (%v) but no Accounting-Stop was issued after the session ended; stream: %v", sid, c.first, recs)
+			res.fail("C16/"+tc.sigKind()+"/"+sigPath+"/acct-stop-missing", "accounting session %s was started (%v) but no Accounting-Stop was issued after the session ended; stream: %v", sid, c.first, recs)
 		case c.starts == 1 && c.stops > 1:
-			res.fail("C16/"+tc.Kind+"/"+sigPath+"/acct-stop-duplicate", "accounting session %s got %d Accounting-Stops for one Start; stream: %v", sid, c.stops, recs)
+			res.fail("C16/"+tc.sigKind()+"/"+sigPath+"/acct-stop-duplicate", "accounting session %s got %d Accounting-Stops for one Start; stream: %v", sid, c.stops, recs)
 		case c.starts == 0 && c.stops > 0:
-			res.fail("C16/"+tc.Kind+"/"+sigPath+"/acct-stop-without-start", "accounting session %s got %d Accounting-Stop(s) but never a Start; stream: %v", sid, c.stops, recs)
+			res.fail("C16/"+tc.sigKind()+"/"+sigPath+"/acct-stop-without-start", "accounting session %s got %d Accounting-Stop(s) but never a Start; stream: %v", sid, c.stops, recs)
 		}
 	}
 }
